@@ -19,9 +19,12 @@ VARIABLES l, bad, drift
 ValueKinds == {"ConstInt", "ConstDouble", "ConstBool", "ConstString"}
 N(e) == Len(e.xnodes)
 \* value-typed constants are keyed by value in Info's position map: the last equal one wins (known finding)
+\* (as Go map keys +0.0 and -0.0 are one key: the doubles are given by their bits)
+ZeroBits == {"0000000000000000", "8000000000000000"}
+SameKey(a, b) == a.k = b.k /\ (a.v = b.v \/ (a.k = "ConstDouble" /\ a.v \in ZeroBits /\ b.v \in ZeroBits))
 LastSame(e, i) == IF e.xnodes[i].k \notin ValueKinds THEN i
-                  ELSE CHOOSE j \in i..N(e) : /\ e.xnodes[j].k = e.xnodes[i].k /\ e.xnodes[j].v = e.xnodes[i].v
-                                              /\ \A m \in (j + 1)..N(e) : ~(e.xnodes[m].k = e.xnodes[i].k /\ e.xnodes[m].v = e.xnodes[i].v)
+                  ELSE CHOOSE j \in i..N(e) : /\ SameKey(e.xnodes[j], e.xnodes[i])
+                                              /\ \A m \in (j + 1)..N(e) : ~SameKey(e.xnodes[m], e.xnodes[i])
 ObsPos(e, i) == << e.nodes[i].l, e.nodes[i].c >>
 Truth(e, r, i) == IF e.xnodes[i].mk = "none" THEN << 0, 0 >> ELSE r.tpos[i]
 CodeExp(e, r, i) == IF e.xnodes[i].mk = "none" THEN << 0, 0 >> ELSE r.pos[LastSame(e, i)]
